@@ -15,9 +15,13 @@ def sysStr : Sys → String
   | .munlock o l => s!"munlock({o.toNat},{l.toNat}) "
   | .munmap o l => s!"munmap({o.toNat},{l.toNat}) "
 
+/-- operating-system half, not part of the model: a mapping larger than the 47-bit user address space is refused by mmap with ENOMEM -/
+def osRefuses (L : Layout) : Bool := L.total.toNat ≥ 2 ^ 46
+
 def allocLine : MallocResult → String
   | .enomem => "NULL errno=12"
   | .ok L calls =>
+    if osRefuses L then "NULL errno=12" else
     s!"ok user={L.userOff.toNat} calls={String.join (calls.map sysStr)}fill=ok canary=ok free={String.join ((sodium_free_calls L).map sysStr)}"
 
 def u64? (s : String) : Option UInt64 := do
